@@ -21,4 +21,12 @@ CLAIMED["C03"] = {
     "note": COMMON_NOTE + "The traversal order of field wrappers is computed by the harness and compared with the implementation's in every case.",
     "technique": "Coq proof over regenerated facts + vm_compute model/impl correspondence",
 }
+CLAIMED["C10"] = {
+    "text": "C10_options_are_documented: for every configuration (3 dash variants x 3 generation modes x 2 nested modes), every name, destination "
+            "path and alias list, the model's registered spellings are exactly the documented set; no spelling registered twice; positional "
+            "fields addressed by their destination only. option_strings is hand-modelled and tied by a correspondence that enumerates all "
+            "18 configurations x both APIs x trees of depth <= 3, parsing every registered spelling and probing spellings of other modes.",
+    "note": COMMON_NOTE + "argparse abbreviation matching is excluded from the 'no other spelling' probe.",
+    "technique": "Coq proof + exhaustive-over-configurations vm_compute model/impl correspondence",
+}
 NOT_CLAIMED = {}
